@@ -13,6 +13,7 @@ mod sim_args;
 mod sim_driver;
 mod sim_entropy;
 mod sim_exec;
+mod sim_fork;
 mod sim_gen;
 mod sim_group;
 mod sim_harvest;
